@@ -490,6 +490,91 @@ def emit(t):
     return "\n".join(L) + "\n"
 
 
+# ------------------------------------------------------------------------------------------ fallback
+# Last-known-good tables (the output of extract() on the tree of 2026-09-30).  Used by harness/props/C01.py ONLY
+# when extract() fails closed, so that the implementation-side oracles and the model correspondence still run;
+# the evidence then says "FALLBACK constants", never "regenerated from /repo".
+FALLBACK = {'cirq': {'branches': [(['H', 'S', 'SDAG', 'T', 'X', 'Y', 'Z'], 'CNone', 1, False, False),
+                       (['CH', 'CX', 'CY', 'CZ'], 'CAll', 1, False, False),
+                       (['RX', 'RY', 'RZ'], 'CNone', 1, True, False),
+                       (['CNOT'], 'CFirst', 1, False, False),
+                       (['MEASURE'], 'CNone', 1, False, False),
+                       (['CRX', 'CRY', 'CRZ'], 'CAll', 1, True, False),
+                       (['XX'], 'CNone', 2, True, False),
+                       (['PHASE'], 'CNone', 1, True, False),
+                       (['CPHASE'], 'CAll', 1, True, False),
+                       (['SWAP'], 'CNone', 2, False, False),
+                       (['CSWAP'], 'CAll', 2, False, False)],
+          'renames': [('CNOT', 'CX')],
+          'gate_map': [('H', 'cirq.H'),
+                       ('X', 'cirq.X'),
+                       ('Y', 'cirq.Y'),
+                       ('Z', 'cirq.Z'),
+                       ('CX', 'cirq.X'),
+                       ('CY', 'cirq.Y'),
+                       ('CZ', 'cirq.Z'),
+                       ('S', 'cirq.S'),
+                       ('SDAG', 'cirq.ZPowGate(exponent=-0.5)'),
+                       ('T', 'cirq.T'),
+                       ('CH', 'cirq.H'),
+                       ('RX', 'cirq.rx'),
+                       ('RY', 'cirq.ry'),
+                       ('RZ', 'cirq.rz'),
+                       ('CNOT', 'cirq.CNOT'),
+                       ('CRZ', 'cirq.rz'),
+                       ('CRX', 'cirq.rx'),
+                       ('CRY', 'cirq.ry'),
+                       ('PHASE', 'cirq.ZPowGate'),
+                       ('CPHASE', 'cirq.ZPowGate'),
+                       ('XX', 'cirq.XXPowGate'),
+                       ('SWAP', 'cirq.SWAP'),
+                       ('CSWAP', 'cirq.SWAP'),
+                       ('MEASURE', 'cirq.measure'),
+                       ('CMEASURE', 'cirq.measure')],
+          'pow_uses': [('XX', 'cirq.XXPowGate', 'PEParamOverPi', -1),
+                       ('PHASE', 'cirq.ZPowGate', 'PEParamOverPi', 0),
+                       ('CPHASE', 'cirq.ZPowGate', 'PEParamOverPi', 0)],
+          'plain_param': ['CRX', 'CRY', 'CRZ', 'RX', 'RY', 'RZ'],
+          'identity_on_each': True},
+ 'sympy': {'branches': [(['H', 'X', 'Y', 'Z'], 'CNone', 1, False, False),
+                        (['S', 'T'], 'CNone', 1, False, True),
+                        (['PHASE', 'RX', 'RY', 'RZ'], 'CNone', 1, True, False),
+                        (['CH', 'CNOT', 'CS', 'CT', 'CX', 'CY', 'CZ'], 'CFirst', 1, False, False),
+                        (['SWAP'], 'CNone', 2, False, False),
+                        (['CPHASE', 'CRX', 'CRY', 'CRZ'], 'CFirst', 1, True, False)],
+           'renames': [],
+           'gate_map': [('H', 'SYMPYGate.HadamardGate'),
+                        ('X', 'SYMPYGate.XGate'),
+                        ('Y', 'SYMPYGate.YGate'),
+                        ('Z', 'SYMPYGate.ZGate'),
+                        ('S', 'SYMPYGate.PhaseGate'),
+                        ('T', 'SYMPYGate.TGate'),
+                        ('PHASE', 'p_gate'),
+                        ('SWAP', 'SYMPYGate.SwapGate'),
+                        ('RX', 'rx_gate'),
+                        ('RY', 'ry_gate'),
+                        ('RZ', 'rz_gate'),
+                        ('CH', 'controlled_gate(SYMPYGate.HadamardGate)'),
+                        ('CNOT', 'SYMPYGate.CNotGate'),
+                        ('CX', 'SYMPYGate.CNotGate'),
+                        ('CY', 'controlled_gate(SYMPYGate.YGate)'),
+                        ('CZ', 'controlled_gate(SYMPYGate.ZGate)'),
+                        ('CRX', 'controlled_gate(rx_gate)'),
+                        ('CRY', 'controlled_gate(ry_gate)'),
+                        ('CRZ', 'controlled_gate(rz_gate)'),
+                        ('CS', 'controlled_gate(SYMPYGate.PhaseGate)'),
+                        ('CT', 'controlled_gate(SYMPYGate.TGate)'),
+                        ('CPHASE', 'controlled_gate(p_gate)')],
+           'iter_reversed': True,
+           'mul_right': True,
+           'matrices': {'rx_gate': [['(cosh_ S theta)', '(kmul (kopp ki) (sinh_ S theta))'], ['(kmul (kopp ki) (sinh_ S theta))', '(cosh_ S theta)']],
+                        'ry_gate': [['(cosh_ S theta)', '(kopp (sinh_ S theta))'], ['(sinh_ S theta)', '(cosh_ S theta)']],
+                        'rz_gate': [['(cis_z S theta (-1)%Z)', 'k0'], ['k0', '(cis_z S theta (1)%Z)']],
+                        'p_gate': [['k1', 'k0'], ['k0', '(cis_z S theta (2)%Z)']]}},
+ 'cirq_order': 'lsq_first',
+ 'sympy_order': 'lsq_first'}
+
+
 if __name__ == "__main__":
     import sys
     from pathlib import Path
